@@ -6,6 +6,27 @@ package main
 var properties = map[string]*property{}
 
 func init() {
+	c14q := map[string]int{"K": 3, "B": 2, "strlen": 8, "paths": 1500, "wall_s": 40}
+	c14t := map[string]int{"K": 4, "B": 3, "strlen": 8, "paths": 30000, "wall_s": 600}
+	properties["C14"] = &property{
+		ID: "C14", Level: "model_checking",
+		Harnesses: []harness{
+			{Name: "gsxC14Plumbing", Pkg: "cmd/go-critic", Solver: "z3", Quick: map[string]int{}, MustReach: []string{"constructed"}},
+			{Name: "gsxC14Plumbing", Pkg: "cmd/gocritic", Solver: "z3", Quick: map[string]int{}, MustReach: []string{"constructed"}},
+			{Name: "gsxC14Fields", Pkg: "checkers", Solver: "z3", Quick: map[string]int{"K": 1}, Replay: "none", MustReach: []string{"fields"}},
+			{Name: "gsxC14Monotone_hugeParam", Pkg: "checkers", Quick: c14q, Thorough: c14t, NoValidate: true, Tolerant: true, ReplayFn: replayThreshold("hugeParam", "sizeThreshold"), MustReach: []string{"strict warns"}},
+			{Name: "gsxC14Monotone_rangeValCopy", Pkg: "checkers", Quick: c14q, Thorough: c14t, NoValidate: true, Tolerant: true, ReplayFn: replayThreshold("rangeValCopy", "sizeThreshold"), MustReach: []string{"strict warns"}},
+			{Name: "gsxC14Monotone_rangeExprCopy", Pkg: "checkers", Quick: c14q, Thorough: c14t, NoValidate: true, Tolerant: true, ReplayFn: replayThreshold("rangeExprCopy", "sizeThreshold"), MustReach: []string{"strict warns"}},
+			{Name: "gsxC14Monotone_tooManyResults", Pkg: "checkers", Quick: c14q, Thorough: c14t, NoValidate: true, Tolerant: true, ReplayFn: replayThreshold("tooManyResultsChecker", "maxResults"), MustReach: []string{"strict warns"}},
+			{Name: "gsxC14Monotone_nestingReduce", Pkg: "checkers", Quick: c14q, Thorough: c14t, NoValidate: true, Tolerant: true, ReplayFn: replayThreshold("nestingReduce", "bodyWidth"), MustReach: []string{"strict warns"}},
+			{Name: "gsxC14Monotone_ifElseChain", Pkg: "checkers", Quick: c14q, Thorough: c14t, NoValidate: true, Tolerant: true, ReplayFn: replayThreshold("ifElseChain", "minThreshold"), MustReach: []string{"strict warns"}},
+			{Name: "gsxC14Boundary_nestingReduce", Pkg: "checkers", Quick: map[string]int{"K": 4, "B": 2, "strlen": 8, "paths": 3000, "wall_s": 60}, Thorough: c14t, NoValidate: true, Tolerant: true, ReplayFn: replayBoundary("nestingReduce", "bodyWidth"), MustReach: []string{"measured flip"}},
+			{Name: "gsxC14Boundary_tooManyResults", Pkg: "checkers", Quick: c14q, Thorough: c14t, NoValidate: true, Tolerant: true, ReplayFn: replayBoundary("tooManyResultsChecker", "maxResults"), MustReach: []string{"measured flip"}},
+			{Name: "gsxC14Boundary_hugeParam", Pkg: "checkers", Quick: c14q, Thorough: c14t, NoValidate: true, Tolerant: true, ReplayFn: replayBoundary("hugeParam", "sizeThreshold"), MustReach: []string{"measured flip"}},
+			{Name: "gsxC14Monotone_commentedOutCode", Pkg: "checkers", Quick: c14q, Thorough: c14t, NoValidate: true, Tolerant: true, ReplayFn: replayThreshold("commentedOutCode", "minLength")},
+		},
+		Assumptions: []string{"as C01; the measured quantity (go/types Sizeof, list lengths, rune counts) is symbolic"},
+	}
 	properties["C07"] = &property{
 		ID: "C07", Level: "model_checking", Kinds: []string{"pos"},
 		Harnesses: visitHarnesses(map[string]int{"K": 3, "B": 2, "strlen": 8, "paths": 1000, "wall_s": 25}, map[string]int{"K": 4, "B": 2, "strlen": 8, "paths": 30000, "wall_s": 600}),
